@@ -1,6 +1,7 @@
 package main
 
 import (
+	"net"
 	"bytes"
 	"errors"
 	"fmt"
@@ -29,6 +30,7 @@ type clConn struct {
 	writes      [][]byte
 	failIDs     [][]byte
 	closeErr    bool
+	closeErrWrapsNetClosed bool
 	inRead      int32
 	// Do: a response handed to the reader while the request with this id is being written
 	doID      []byte
@@ -109,6 +111,9 @@ func (c *clConn) Close() error {
 	c.mu.Unlock()
 	c.once.Do(func() { close(c.closed) })
 	if c.closeErr {
+		if c.closeErrWrapsNetClosed { // what a real net.Conn says when its owner closed it first: still an error to report
+			return &net.OpError{Op: "close", Net: "udp", Err: net.ErrClosed}
+		}
 		return errScriptedClose
 	}
 	return nil
@@ -241,6 +246,9 @@ func clientErr(err error) string {
 	case errors.Is(err, errScriptedWrite):
 		return "write-err"
 	case errors.As(err, &ce):
+		if ce.AgentErr == nil && ce.ConnectionErr == nil {
+			return "close-err-without-a-cause"
+		}
 		return "close-err"
 	}
 	return "other:" + err.Error()
@@ -305,7 +313,8 @@ func (e *executor) clientOp(t []string) (string, bool) {
 		stun.VerifResetClientPools()
 		x = &clientExec{clock: &virtualClock{}, coll: &manualCollector{}, noClose: t[4] == "1"}
 		x.conn = &clConn{inbox: make(chan []byte), readEntered: make(chan struct{}), kick: make(chan struct{}),
-			closed: make(chan struct{}), closeErr: t[7] == "1", blockedCh: make(chan struct{}), releaseCh: make(chan bool)}
+			closed: make(chan struct{}), closeErr: t[7] == "1", closeErrWrapsNetClosed: atoi(t[2])%2 == 1,
+			blockedCh: make(chan struct{}), releaseCh: make(chan bool)}
 		// the scripted agent and the scripted connection share the "blocked"/"release" channels: at most one
 		// call is suspended at a time
 		x.ag = &errCloseAgent{Agent: stun.NewAgent(nil), fail: t[6] == "1", blockedCh: x.conn.blockedCh, releaseCh: x.conn.releaseCh}
